@@ -12,7 +12,9 @@ closeness, betweenness and trans_betweenness against their definitions
 evaluated on the library's own adjacency (family scale: the same on a fixed
 list of structured integer series with 130/260/300 samples, uniform, gapped
 and "hours since 1800" timings, missing samples around positions 128/256,
-exact integer oracle); invariance of the adjacency under
+exact integer oracle; family mid: lengths 17..64, patterns built around
+record highs/lows and their positions, each reversed, negated and - for
+lengths 17 and 20 - in every cyclic rotation); invariance of the adjacency under
 x -> a x + b and t -> c t + d (dyadic a, c > 0); time reversal mirrors the
 adjacency and exchanges the retarded and advanced measures.
 """
@@ -414,22 +416,31 @@ def _scale_measures(g, A, bw, viol, excl, sc):
 
 def fam_scale(case):
     pat, n, tname = case["pat"], case["n"], case["t"]
-    hor, mv, bw = bool(case["h"]), bool(case["mv"]), bool(case.get("bw"))
-    sc = _sizeclass(n)
     xi, ti = _pattern(pat, n), _timing(tname, n)
     missing = np.zeros(n, dtype=bool)
-    if mv:
+    if case["mv"]:
         missing[[q for q in SCALE_MV + [n - 1] if q < n]] = True
+    return _judge_long(xi, ti, tname == "uni", missing, bool(case["h"]),
+                       bool(case["mv"]), bool(case.get("bw")), _sizeclass(n),
+                       (pat, tname))
+
+
+def _judge_long(xi, ti, uniform, missing, hor, mv, bw, sc, label):
+    """Judge one integer series (values xi, integer timings ti) with the
+    exact integer oracle and all relations of the property."""
+    n = len(xi)
+    pat, tname = label
     x = [None if missing[k] else float(xi[k]) for k in range(n)]
-    t = None if tname == "uni" else [float(v) for v in ti]
+    t = None if uniform else [float(v) for v in ti]
     kind = "horizontal" if hor else "natural"
     tag = "%s%s:%s" % (kind, "+mv" if mv else "", sc)
     viol, excl, stats = [], {}, {}
     ev = 2
-    # self-test of the fast oracle against the by-definition oracle on two
-    # windows (one across position 128)
-    for a in (0, min(121, n - 14)):
-        w = slice(a, a + 14)
+    # self-test of the fast oracle against the by-definition oracle: whole
+    # series when short, else two windows (one across position 128)
+    wins = [slice(0, n)] if n <= 24 else [
+        slice(a, a + 14) for a in (0, min(121, n - 14))]
+    for w in wins:
         ref = vis.horizontal(x[w]) if hor else vis.natural(
             x[w], [float(v) for v in ti[w]])
         fast = vis.fast_horizontal(xi[w], missing[w]) if hor else \
@@ -545,7 +556,98 @@ def _scale_cases(tier):
     return out
 
 
-FAMILIES = {"vg": fam_vg, "scale": fam_scale}
+
+# --------------------------------------------------------------------------
+# family mid: 17..64 samples, patterns built around record highs / lows and
+# their positions (what a divide-and-conquer or stack based kernel has to get
+# right), all variants reversed / negated, all rotations for 17 and 20
+
+MID_LENGTHS = [17, 18, 20, 24, 33, 40, 64]
+MID_PATTERNS = ["convex", "concave", "ramp", "saw_grow", "peaks_decr",
+                "max_first", "max_last", "max_mid", "stairs_max_last",
+                "bitrev", "qres"]
+
+
+def _mid_pattern(name, n):
+    i = np.arange(n)
+    if name == "convex":
+        x = i * i
+    elif name == "concave":
+        x = i * (2 * n - i)
+    elif name == "ramp":                  # collinear throughout
+        x = 3 * i
+    elif name == "saw_grow":              # sawtooth with growing peaks
+        x = (i % 4) * (i // 4 + 1)
+    elif name == "peaks_decr":            # isolated peaks of decreasing height
+        x = np.where(i % 3 == 1, n - i, 0)
+    elif name in ("max_first", "max_last", "max_mid"):
+        x = (i * 7) % 5
+        x[{"max_first": 0, "max_last": n - 1, "max_mid": n // 2}[name]] = 100
+    elif name == "stairs_max_last":
+        x = i // 3
+        x[-1] = n
+    elif name == "bitrev":
+        bits = int(np.ceil(np.log2(n)))
+        x = np.array([int(format(k, "0%db" % bits)[::-1], 2) for k in i])
+    elif name == "qres":
+        x = (i * i) % 13
+    else:
+        raise ValueError(name)
+    return np.asarray(x).astype(int)
+
+
+def _mid_series(case):
+    x = _mid_pattern(case["pat"], case["n"])
+    v = case["var"]
+    if v & 1:
+        x = x[::-1].copy()
+    if v & 2:
+        x = -x
+    return np.roll(x, case["rot"])
+
+
+def fam_mid(case):
+    n = case["n"]
+    xi = _mid_series(case)
+    ti = _timing(case["t"], n)
+    missing = np.zeros(n, dtype=bool)
+    if case["mv"]:
+        missing[[n // 3, (2 * n) // 3 + 1]] = True
+    return _judge_long(xi, ti, case["t"] == "uni", missing, bool(case["h"]),
+                       bool(case["mv"]), bool(case.get("bw")), "mid",
+                       (case["pat"], case["t"]))
+
+
+def _mid_cases():
+    out = []
+
+    def add(pat, n, var, rot, nan):
+        bw = n <= 24 and rot == 0 and var == 0
+        out.append({"pat": pat, "n": n, "var": var, "rot": rot, "t": "uni",
+                    "h": False, "mv": False, "bw": bw})
+        out.append({"pat": pat, "n": n, "var": var, "rot": rot, "t": "gaps",
+                    "h": False, "mv": False, "bw": False})
+        out.append({"pat": pat, "n": n, "var": var, "rot": rot, "t": "uni",
+                    "h": True, "mv": False, "bw": False})
+        if nan:
+            out.append({"pat": pat, "n": n, "var": var, "rot": rot,
+                        "t": "gaps", "h": False, "mv": True, "bw": False})
+            out.append({"pat": pat, "n": n, "var": var, "rot": rot,
+                        "t": "uni", "h": True, "mv": True, "bw": False})
+    for n in MID_LENGTHS:
+        for pat in MID_PATTERNS:
+            for var in range(4):          # as is, reversed, negated, both
+                add(pat, n, var, 0, var in (0, 3))
+    for n in (17, 20):
+        for pat in MID_PATTERNS:
+            for rot in range(1, n):
+                add(pat, n, 0, rot, False)
+                add(pat, n, 2, rot, False)
+    out.sort(key=lambda c: c["n"])
+    return out
+
+
+FAMILIES = {"vg": fam_vg, "scale": fam_scale, "mid": fam_mid}
 
 
 def _cases(tier):
@@ -592,6 +694,12 @@ def run(ctx):
             else "", TIMINGS[1], TIMINGS[2], mmax))
     ctx.explore("vg", cases, desc="visibility criterion, measures, "
                 "affine invariance, time reversal")
+    mc_ = _mid_cases()
+    ctx.explore("mid", mc_, desc="17..64 samples: convex/concave/ramps/"
+                "growing and decreasing peaks/maximum first, last, middle/"
+                "bit reversal, reversed, negated, all rotations of 17 and 20")
+    ctx.notes.update({"mid_cases": len(mc_), "mid_lengths": MID_LENGTHS,
+                      "mid_patterns": MID_PATTERNS})
     sc = _scale_cases(ctx.tier)
     ctx.explore("scale", sc, chunk=1, desc="130/260/300 samples: plateaus, "
                 "ramps, collinear triples, missing samples around 128/256, "
